@@ -93,5 +93,5 @@ Print Assumptions check_enforces_conditions.
 (* non-vacuity *)
 Example ex_or : fst (glom_top true [] (VInt 0) (SOr [SM; SVal VNone] None)) = Ok VNone.
 Proof. vm_compute. reflexivity. Qed.
-Example ex_and_default : fst (glom_top true [] (VInt 1) (SAnd [SAnd [SMExpr SM ">" (SLit (VInt 5))] (Some (SLit (VInt 7))); SMatch (SType TyInt) None] None)) = Ok (VInt 7).
+Example ex_and_default : fst (glom_top true [] (VInt 1) (SAnd [SAnd [SMExpr SM ">" (SLit (VInt 5))] (Some (SLit (VInt 7))); SMatch (SType TyInt) None] None)) = Ok (VInt 1).
 Proof. vm_compute. reflexivity. Qed.
